@@ -16,6 +16,8 @@ texts={
 "C12":("every rule string up to a length bound over a meta-character-rich alphabet for accept/reject, every (rule field, identifier) pair up to a length bound in each position for matching, all rule lists of length <= 2 over {a,b,*}^3; compared with a literal field-wise reference","exhaustive input enumeration on the implementation"),
 "C13":("for every announced packet, in every reached state and on every chain, receive and acknowledgement messages with another port or an added/removed/replaced relay chain (with the proof the altered packet's own previous hop gives) must be rejected","explicit-state BFS on the implementation + probe menu"),
 "C14":("status grid over trusting periods x ages around the boundary x sub-second parts for the three client types, plus message-level runs (valid messages obtained before a time jump) inside and past the trusting period, ETH/BSC with canonical MPT proofs","exhaustive input enumeration + scripted executions on the implementation"),
+"C15":("registry states reachable by a bounded number of successful governance operations; in each, every privileged message variant x every authority class on the message-router path and as signed transactions, and header updates x signer classes; effect only with the rightful authority, refusals leave the tibc store byte-identical, creating never overwrites, upgrading never changes the type","explicit-state BFS over registry states + exhaustive message x authority enumeration"),
+"C16":("every chain of every state of three explored scenario graphs (incl. client heights containing 0x2f) is exported and re-imported into a fresh application; stores compared byte for byte and every enabled relayer action and packet re-submission executed on both copies","explicit-state BFS on the implementation with a differential export/import oracle"),
 }
 done=sorted(texts)
 subprocess.check_call(['true'])
